@@ -599,3 +599,11 @@ V("C16", "vacancy cell number taken after wrapping the position", "R16.1", (GEO,
 V("C20", "twin: a wrapping conversion inside get_matches is C16's business", "silent", (GEO, "copy_index = np.floor(to_scaled(cell, position, wrap=False)[0])", "copy_index = np.floor(to_scaled(cell, position, wrap=True)[0])"))
 for _pid, _rid in (("C18", "R18.8"), ("C04", "R04.10")):
     V(_pid, "size guard of simulation-cell spans runs when the spans are not both cell vectors", _rid, (PFD, "                if n_periodic_spans_selected == 2:", "                if n_periodic_spans_selected != 2:"))
+
+# ------------------------------------------------------------------------------------------ deeper demo battery
+V("C20", "diagonal inertia entry with a difference of squares", "R20.6", (GEO, "I11 = np.sum(weights * (y**2 + z**2))", "I11 = np.sum(weights * (y**2 - z**2))"))
+V("C20", "off-diagonal inertia entry without the minus sign", "R20.6", (GEO, "I12 = np.sum(-weights * x * y)", "I12 = np.sum(weights * x * y)"))
+V("C20", "twin: diagonal inertia entry written with products", "silent", (GEO, "I11 = np.sum(weights * (y**2 + z**2))", "I11 = np.sum(weights * y * y + weights * z * z)"))
+V("C20", "coordinates of the inertia tensor taken as positions plus centre", "R20.6", (GEO, "pos_shifted = positions - centroid", "pos_shifted = positions + centroid"))
+V("C11", "layer translated by centre plus centre of mass", "R11.2", (SYM, "translation = cell_center - pbc_cm", "translation = cell_center + pbc_cm"))
+V("C14", "Bravais getter returns early when a space group was detected", "C14.getters", (SYM, "        if space_group is None:\n            return None\n\n        bravais_lattice", "        if space_group is not None:\n            return None\n\n        bravais_lattice"))
